@@ -204,6 +204,18 @@ def task(args):
                 body = b'\x00\x00' + struct.pack('!H', len(mp) + 4 + len(ls) + 4) + struct.pack('!BBH', 0x90, 14, len(mp)) + mp + \
                     struct.pack('!BBH', 0x90, 29, len(ls)) + ls
                 check('Update.parse', body, 'bgp-ls attr tlv %d' % t, must_not_raise=True)
+    elif kind == 'dupattr':
+        # the same attribute type twice (and three times) in one UPDATE, with and without a BGP-LS MP_REACH in front
+        mp = struct.pack('!HBB', 16388, 71, 4) + b'\x0a\x00\x00\x01\x00' + struct.pack('!HH', 1, 21) + b'\x02' + b'\x00' * 7 + b'\x01' + \
+            struct.pack('!HH', 256, 8) + struct.pack('!HHI', 512, 4, 65000)
+        mpa = struct.pack('!BBH', 0x90, 14, len(mp)) + mp
+        for t in range(args[1], args[2]):
+            for val in (b'', b'\x00', b'\x01\x02\x03\x04', struct.pack('!HH', 1099, 7) + b'\x30\x00\x00\x00\x00\x5d\xc1'):
+                for flags in (0x40, 0xC0, 0x80):
+                    one = struct.pack('!BBB', flags, t, len(val)) + val
+                    for attrs in (one + one, one + one + one, mpa + one + one, one + mpa + one):
+                        body = b'\x00\x00' + struct.pack('!H', len(attrs)) + attrs
+                        check('Update.parse', body, 'attribute type repeated', must_not_raise=True)
     elif kind == 'v4tails':
         # every IPv4 withdrawn-routes / NLRI field that ends in an arbitrary tail of <= 2 octets, behind nothing, a good prefix, a
         # path identifier, a path identifier + good prefix - with and without ADD-PATH for IPv4 unicast
@@ -337,6 +349,8 @@ def run(tier, seed):
     for i in range(0, len(lt), 8):
         tasks.append(('nested', lt[i:i + 8]))
         tasks.append(('hugetlv', lt[i:i + 8]))
+    for lo in range(0, 256, 32):
+        tasks.append(('dupattr', lo, lo + 32))
     ntails = 1 + 256 + 65536
     for lo in range(0, ntails, 2200):
         tasks.append(('v4tails', lo, lo + 2200))
@@ -364,7 +378,7 @@ def run(tier, seed):
                 'of length 0..2 (also inside Update.parse); every attribute type 0..255 x 7 flag octets x declared-length variants x 6 '
                 'values; every registered link-state TLV type (%d) x length 0..%d x 3 fills x every single-octet override from '
                 '{0,1,2,3,4,5,8,255} at every position x 3 protocol ids; BGP-LS NLRI types x protocol x descriptor TLVs x length 0..20; '
-                'Prefix-SID TLV types x length 0..40; every link-state TLV nested in itself (depth 2..40, 6 offsets, innermost whole / cut) and as one 2000- / 3900-octet TLV followed by a malformed ORIGIN; every IPv4 NLRI / withdrawn field ending in any tail of <= 2 octets behind 4 contexts, with and without ADD-PATH; OPEN optional parameter x capability code 0..255 x length 0..8; every byte string '
+                'Prefix-SID TLV types x length 0..40; every link-state TLV nested in itself (depth 2..40, 6 offsets, innermost whole / cut) and as one 2000- / 3900-octet TLV followed by a malformed ORIGIN; every IPv4 NLRI / withdrawn field ending in any tail of <= 2 octets behind 4 contexts, with and without ADD-PATH; every attribute type 0..255 twice / three times in one UPDATE; OPEN optional parameter x capability code 0..255 x length 0..8; every byte string '
                 'of the unit tests (%d seeds) with all single-octet mutations and truncations, as UPDATE body and as the value of 10 '
                 'attribute types; every seed padded/repeated to 4096 octets. Verdict by the deterministic step meter (300 + 60*len). '
                 'distinct_nontrivial = distinct (entry point, input class, outcome kind)' % (len(entry_points()), len(lt), maxlen, len(corpus)),
